@@ -54,7 +54,8 @@ CHECKS = {
             "cell), every rate is compared with an independent quadrature of the density, rates are >= 0 and sum "
             "to the reported intensity, and three routes to a state's rate agree; half of the cases first build up to "
             "two chains on narrower grids with the same model object, and the caller's model must come out unchanged; a "
-            "third of the independent grids get a model the caller truncated first (rates = mass of cell ∩ restriction). "
+            "third of the independent grids get a model the caller truncated first (rates = mass of cell ∩ restriction); "
+            "half of the refined grids served a coarser chain before each refinement. "
             "For copula chains (d=2,3; "
             "Clayton incl. eta in {0,1}, independent, dependent; INVERSION and adapted tree) every state's rate, "
             "the intensity and the 3^d-1 bucket masses are compared with a reference rectangle mass re-implemented "
